@@ -78,7 +78,13 @@ func TestCheck(t *testing.T) {
 	gspec.EnableInterruptHook()
 	ctx := context.Background()
 	n := int64(cfg.Pick(60, 80))
-	rep.Cases(n, func(idx int64, rng *mon.Rand) {
+	// the last cases of every shard belong to the typed sub-workload (typed_test.go)
+	rep.Require("typed_interrupt_infos_checked", 50)
+	rep.Cases(n+typedCasesPerShard(cfg), func(idx int64, rng *mon.Rand) {
+		if idx >= n {
+			typedCase(ctx, rep, rng, cfg, idx-n)
+			return
+		}
 		mode := gspec.Mode(idx % 3)
 		spec := gspec.Gen(rng, genOpts(rng, cfg, mode))
 		addReruns(rng, spec)
